@@ -240,6 +240,9 @@ CONFIGS = {
     # outlines and zones given as closed rings (first vertex repeated), the zone clockwise
     'closed_rings': dict(prop=[[(0.0, 0.0), (48.0, 0.0), (48.0, 32.0), (0.0, 32.0), (0.0, 0.0)]],
                          nogo=[[(16.0, 24.0), (32.0, 24.0), (32.0, 8.0), (16.0, 8.0), (16.0, 24.0)]]),
+    # outline surveyed to the centimetre: grid rows at 50/3, 50/6, ... fall a few millimetres above the level of the side vertex
+    # (50, 16.66) and below that of (0, 33.34): the half-open vertex rule has to be exact
+    'surveyed_hexagon': dict(prop=[[(12.0, 0.0), (38.0, 0.0), (50.0, 16.66), (38.0, 50.0), (12.0, 50.0), (0.0, 33.34)]], nogo=[]),
     'convex_offset': dict(prop=[[(5.0, 3.0), (38.0, 0.0), (46.0, 22.0), (25.0, 41.0), (2.0, 30.0)]], nogo=[[(20.0, 12.0), (28.0, 12.0), (28.0, 20.0)]]),
     'U_two_nogo': dict(prop=[[(0.0, 0.0), (50.0, 0.0), (50.0, 40.0), (35.0, 40.0), (35.0, 15.0), (15.0, 15.0), (15.0, 40.0), (0.0, 40.0)]],
                        nogo=[[(3.0, 3.0), (9.0, 3.0), (9.0, 9.0), (3.0, 9.0)], [(40.0, 20.0), (47.0, 20.0), (47.0, 30.0), (40.0, 30.0)]]),
@@ -252,7 +255,7 @@ def units(tier, seed):
     AS = ['polygons concrete; floats as reals for the spacing arithmetic; classification of concrete grid points natively in binary64',
           'lots admit three rows at the maximum spacing']
     us = []
-    names = list(CONFIGS) if tier == 'thorough' else ['L_shape', 'rect_nogo', 'rect_nogo_cw', 'two_outlines_cw', 'two_outlines_small_last', 'kite_free', 'closed_rings', 'convex_offset']
+    names = list(CONFIGS) if tier == 'thorough' else ['L_shape', 'rect_nogo', 'rect_nogo_cw', 'two_outlines_cw', 'two_outlines_small_last', 'kite_free', 'closed_rings', 'surveyed_hexagon', 'convex_offset']
     rng = (5.0, 10.0, 20.0) if tier == 'quick' else (3.0, 12.0, 25.0)
     for nm in names:
         c = CONFIGS[nm]
